@@ -104,6 +104,8 @@ def susp_check(n, is_map, tol, kinds, d0, d1, choices, eager=(), fail_refresh=Fa
             beh.append(("park_until", dly))
         elif k == 4:
             beh.append(("ok_after_park", i, dly))
+        elif k == 6:
+            beh.append(("park_until", 0))     # parks on a timer that is ALREADY due (e.g. an invoke with the default timeout 0 suspends with delay 0)
         else:
             beh.append(("ok", i))
             never.append(i)
@@ -190,7 +192,7 @@ del _f, _n, _m, _t
 def _mk_timer_thread(fail_refresh):
     def lem(b0: int, b1: int, e: int, c0: int, c1: int, tol: bool):
         """
-        pre: 3 <= b0 < 5 and 0 <= b1 < 6 and -1 <= e < 4 and 0 <= c0 < 3 and 0 <= c1 < 3
+        pre: (b0 == 3 or b0 == 4 or b0 == 6) and 0 <= b1 < 7 and -1 <= e < 4 and 0 <= c0 < 3 and 0 <= c1 < 3
         post: True
         """
         susp_check(2, False, tol, [b0, b1], 0, 0, [c0, c1], eager=[e] if e >= 0 else [], fail_refresh=fail_refresh)
@@ -199,7 +201,7 @@ def _mk_timer_thread(fail_refresh):
     reach = ("end", "refresh_failed") if fail_refresh else ("end", "suspended", "returned", "resumed", "eager_resubmission")
     return h.lemma(timeout=600, thorough_timeout=2400, funcs=XFUNCS + ["concurrency.executor.TimerScheduler._timer_loop/schedule_resume/shutdown", "execute().resubmitter/submit_task"],
                    reach=reach,
-                   bounds="parallel of 2 branches; branch 0 parks until now+5 (always, or once and then succeeds), branch 1: any of the six behaviours; "
+                   bounds="parallel of 2 branches; branch 0 parks until now+5 (always, or once and then succeeds) or on a timer that is already due, branch 1: any of the seven behaviours; "
                           "ONE solver-chosen submit() (initial or timer-driven resubmission, ordinal 0..3) whose task has already finished when the submitting thread "
                           "reaches add_done_callback - the callback then runs on the submitting thread (the timer thread inside its critical section, for a resubmission); "
                           "TimerScheduler._lock modelled as a non-reentrant lock; " +
